@@ -434,6 +434,15 @@ func (m *Manager) lock() {
 			}
 			acctInfo.acctKeyPriv = nil
 		}
+
+		// Zero and drop all cached derived private keys.
+		manager.privKeyCache.Range(
+			func(kp DerivationPath, ck *cachedKey) bool {
+				ck.key.Zero()
+				manager.privKeyCache.Delete(kp)
+				return true
+			},
+		)
 	}
 
 	// Remove clear text private keys and scripts from all address entries.
